@@ -11,8 +11,56 @@ pub mod sync {
     pub use shuttle::sync::{Condvar, Mutex, MutexGuard, RwLock, RwLockReadGuard, RwLockWriteGuard};
     pub mod atomic {
         pub use ::std::sync::atomic::Ordering;
-        pub use shuttle::sync::atomic::{AtomicBool, AtomicI32, AtomicI64, AtomicU32, AtomicU64, AtomicUsize};
+        pub use shuttle::sync::atomic::{AtomicBool, AtomicI32, AtomicI64, AtomicU32, AtomicU64};
         pub use shuttle::sync::atomic::{AtomicI8, AtomicU8};
+
+        /// `AtomicUsize` is only used for a process-global id counter (a `static`). A shuttle
+        /// atomic in a static would be shared by the executions that run in parallel on
+        /// different OS threads (and is not thread-safe); a std atomic would make ids depend on
+        /// what other executions do. This one keeps one value per OS thread (= per execution),
+        /// starting from the initial value: "epoch reset" of process-global state.
+        pub struct AtomicUsize {
+            init: usize,
+        }
+
+        ::std::thread_local! {
+            static VALUES: ::std::cell::RefCell<::std::collections::BTreeMap<usize, usize>> =
+                const { ::std::cell::RefCell::new(::std::collections::BTreeMap::new()) };
+        }
+
+        pub fn reset_process_globals() {
+            VALUES.with(|v| v.borrow_mut().clear());
+        }
+
+        impl AtomicUsize {
+            pub const fn new(v: usize) -> Self {
+                AtomicUsize { init: v }
+            }
+            fn with<R>(&self, f: impl FnOnce(&mut usize) -> R) -> R {
+                let key = self as *const _ as usize;
+                VALUES.with(|v| f(v.borrow_mut().entry(key).or_insert(self.init)))
+            }
+            pub fn load(&self, _o: Ordering) -> usize {
+                self.with(|v| *v)
+            }
+            pub fn store(&self, val: usize, _o: Ordering) {
+                self.with(|v| *v = val)
+            }
+            pub fn fetch_add(&self, val: usize, _o: Ordering) -> usize {
+                self.with(|v| {
+                    let old = *v;
+                    *v = old.wrapping_add(val);
+                    old
+                })
+            }
+            pub fn fetch_sub(&self, val: usize, _o: Ordering) -> usize {
+                self.with(|v| {
+                    let old = *v;
+                    *v = old.wrapping_sub(val);
+                    old
+                })
+            }
+        }
     }
 }
 
